@@ -31,8 +31,15 @@ type c16Info struct {
 	mode     os.FileMode
 	mtime    int64
 	uid, gid uint32
+	ext      string // extended attribute data ("" = none): entries that carry one are followed by further entries in a batch
 }
 
+func (i c16Info) Extended() []StatExtended {
+	if i.ext == "" {
+		return nil
+	}
+	return []StatExtended{{ExtType: "note@verif", ExtData: i.ext}, {ExtType: "second@verif", ExtData: ""}}
+}
 func (i c16Info) Name() string       { return i.name }
 func (i c16Info) Size() int64        { return i.size }
 func (i c16Info) Mode() os.FileMode  { return i.mode }
@@ -43,7 +50,7 @@ func (i c16Info) Uid() uint32        { return i.uid }
 func (i c16Info) Gid() uint32        { return i.gid }
 
 func (i c16Info) tuple() string {
-	return fmt.Sprintf("%q size=%d mode=%v mtime=%d uid=%d gid=%d", i.name, i.size, i.mode, i.mtime, i.uid, i.gid)
+	return fmt.Sprintf("%q size=%d mode=%v mtime=%d uid=%d gid=%d ext=%q", i.name, i.size, i.mode, i.mtime, i.uid, i.gid, i.ext)
 }
 
 // c16Names: entry names with spaces, UTF-8, non-UTF-8 bytes, leading dots (which must NOT be
@@ -67,6 +74,9 @@ func c16Name(i int) string {
 
 func c16Entry(i int) c16Info {
 	e := c16Info{name: c16Name(i), size: int64(1000 + i), mode: 0o644, mtime: 1000000000 + int64(i), uid: uint32(i), gid: uint32(2*i + 1)}
+	if i%4 == 2 {
+		e.ext = fmt.Sprintf("data of entry %d", i)
+	}
 	switch i % 5 {
 	case 1:
 		e.mode = os.ModeDir | 0o755
@@ -216,6 +226,12 @@ func c16Tuples(fis []os.FileInfo) []string {
 		t := c16Info{name: fi.Name(), size: fi.Size(), mode: fi.Mode(), mtime: fi.ModTime().Unix()}
 		if st, ok := fi.Sys().(*FileStat); ok && st != nil {
 			t.uid, t.gid = st.UID, st.GID
+			if len(st.Extended) > 0 {
+				t.ext = st.Extended[0].ExtData
+				if len(st.Extended) != 2 || st.Extended[0].ExtType != "note@verif" || st.Extended[1].ExtType != "second@verif" || st.Extended[1].ExtData != "" {
+					t.ext = fmt.Sprintf("MANGLED %v", st.Extended)
+				}
+			}
 		}
 		out = append(out, t.tuple())
 	}
@@ -546,7 +562,7 @@ func init() {
 			}
 		}
 		for _, nl := range []int{120, 250} {
-			for _, n := range []int{127, 128, 129, 258, 300} {
+			for _, n := range []int{127, 128, 129, 258, 300, 700, 1023, 1025, 1100} { // the large ones: any batch size a server might choose still has to fit a frame
 				for _, alloc := range []bool{false, true} {
 					i++
 					if !c.Mine(i) {
